@@ -103,11 +103,11 @@ func Lifecycle(rng *wh.Rng, thorough bool) []Scenario {
 		out = append(out, Scenario{Handlers: []HandlerSpec{plain(0)}, Prog: p, Seed: rng.Next(), Conf: true, Tag: fmt.Sprintf("life/empty-start/%v", parkWatcher)})
 	}
 	// a handler whose Subscribe fails the first time(s): RunHandlers returns the error, a later call must start it
-	out = append(out, Scenario{Handlers: []HandlerSpec{plain(0), {SubFail: 1, Outcomes: []string{"ok"}}}, Seed: rng.Next(), Conf: true, Tag: "life/subfail/late",
+	out = append(out, Scenario{Handlers: []HandlerSpec{plain(0), {SubFail: 1, Outcomes: []string{"ok"}}}, Seed: rng.Next(), Conf: true, Isolate: true, Tag: "life/subfail/late",
 		Prog: prog("add:0", "run", "wrun", "add:1", "rh", "rh", "cst:1", "emit:1:1", "whe:1", "rh", "stop:1", "wsd:1", "emit:0:1", "whe:2", "close:1", "wclose", "wrr")})
-	out = append(out, Scenario{Handlers: []HandlerSpec{plain(0), {SubFail: 2}, plain(2)}, Seed: rng.Next(), Tag: "life/subfail/twice",
+	out = append(out, Scenario{Handlers: []HandlerSpec{plain(0), {SubFail: 2}, plain(2)}, Seed: rng.Next(), Isolate: true, Tag: "life/subfail/twice",
 		Prog: prog("add:0", "run", "wrun", "add:1", "add:2", "rh", "rh", "rh", "cst:1", "cst:2", "emit:1:1", "emit:2:1", "whe:2", "close:2", "wclose", "wrr")})
-	out = append(out, Scenario{Handlers: []HandlerSpec{{SubFail: 1}}, Seed: rng.Next(), Conf: true, Tag: "life/subfail/run",
+	out = append(out, Scenario{Handlers: []HandlerSpec{{SubFail: 1}}, Seed: rng.Next(), Conf: true, Isolate: true, Tag: "life/subfail/run",
 		Prog: prog("add:0", "run", "wrr", "rh", "cst:0", "emit:0:1", "whe:1", "close:1", "wclose")})
 	// a (redundant) RunHandlers call is held right after it took handlersLock – at its own log line – while the router is
 	// closed by a caller / closes itself after cancel: every call must return, Run with nil
@@ -152,13 +152,22 @@ func Lifecycle(rng *wh.Rng, thorough bool) []Scenario {
 	}
 	// a start-up that fails (one of three subscriptions is refused): Run returns the error, Running() stays open, a second Run is
 	// still refused; a later RunHandlers starts everything
-	out = append(out, Scenario{Handlers: []HandlerSpec{plain(0), {SubFail: 1}, plain(2)}, Seed: rng.Next(), Conf: true, WaitMs: 8000, Tag: "life/failed-start",
+	out = append(out, Scenario{Handlers: []HandlerSpec{plain(0), {SubFail: 1}, plain(2)}, Seed: rng.Next(), Conf: true, WaitMs: 8000, Isolate: true, Tag: "life/failed-start",
 		Prog: prog("add:0", "add:1", "add:2", "run", "wrr", "crun", "run2", "crun", "rh", "cst:0", "cst:1", "cst:2", "emit:1:1", "whe:1", "close:1", "wclose")})
 	// a second Run while the first one is still starting up (inside a slow Subscribe): refused at once; the first goes on normally
 	for n := 1; n <= 2; n++ {
 		hs, p := addAll(n, func(h int) HandlerSpec { return HandlerSpec{SubGate: true} })
 		p = append(p, "run", "wev:sub", "run2", "crun", "subgo", "wrun", "run2", "emit:0:1", "whe:1", "close:1", "wclose", "wrr")
 		out = append(out, Scenario{Handlers: hs, Prog: p, Seed: rng.Next(), Conf: n == 1, WaitMs: 8000, Isolate: true, Tag: fmt.Sprintf("life/run-during-startup/%d", n)})
+	}
+	// a router started empty whose Run context is cancelled before the first handler is known to the watcher (cancel before
+	// AddHandler; or everything done while the watcher is parked before its select): the handler, started with the cancelled
+	// context, ends at once - the last handler ended, so the router closes itself and Run returns nil
+	out = append(out, Scenario{Handlers: []HandlerSpec{plain(0)}, Seed: rng.Next(), Conf: true, WaitMs: 8000, Tag: "life/empty-start/cancel-first",
+		Prog: prog("run", "wrun", "cancel", "add:0", "rh", "wst:0", "wsd:0", "wrr", "close:1", "wclose")})
+	for i := 0; i < 4; i++ {
+		out = append(out, Scenario{Handlers: []HandlerSpec{plain(0)}, Seed: rng.Next(), Conf: i == 0, WaitMs: 8000, Tag: fmt.Sprintf("life/empty-start/cancel-parked/%d", i),
+			Prog: prog("park:kw", "run", "wrun", "wpark", "add:0", "rh", "wst:0", "cancel", "wsd:0", "rel", "wrr", "close:1", "wclose")})
 	}
 	// a second Run returns an error; RunHandlers on a router that is not running returns an error
 	out = append(out, Scenario{Handlers: []HandlerSpec{plain(0)}, Seed: rng.Next(), Conf: true, Tag: "life/second-run",
